@@ -4,9 +4,9 @@ func init() {
 	addProperty(&Property{
 		ID:         "C18",
 		Title:      "Every enumerated keyword maps back to the value that printed it",
-		Decided:    "for all declared values of all enum types (exhaustive): String table defines a keyword, FromString maps it back to the same value, keywords are injective (ENUM-TAB); the keyword is a terminal the llir/ll lexer can produce (ENUM-LEX); flag-set printers enumerate exactly the single-bit members between First and Last (ENUM-FLAGS); each FromString is applied to the matching AST keyword node (ENUM-USE); flag-set printers test the empty set first, on the unmodified set (ENUM-FLAGS); no function that converts between keywords and enum values keeps process-level state such as a shared keyword cache (DET-2 restricted to functions with an enum type in their signature).",
+		Decided:    "for all declared values of all enum types (exhaustive): String table defines a keyword, FromString maps it back to the same value, keywords are injective (ENUM-TAB); the keyword is a terminal the llir/ll lexer can produce (ENUM-LEX); flag-set printers enumerate exactly the single-bit members between First and Last (ENUM-FLAGS); each FromString is applied to the matching AST keyword node (ENUM-USE); flag-set printers test the empty set first, on the unmodified set (ENUM-FLAGS); no function that converts between keywords and enum values keeps process-level state such as a shared keyword cache (DET-2 restricted to functions with an enum type in their signature); hand-written keyword tables agree with the generated ones (ENUM-HAND); an enum-valued debug-info field is omitted from the text only at its zero value (MD-OMIT, enum fields).",
 		NotDecided: "all subsets of the flag types beyond the structure of the set printers; acceptance of each keyword by LLVM itself.",
-		Rules:      []RuleUse{{Rule: "ENUM-TAB"}, {Rule: "ENUM-LEX"}, {Rule: "ENUM-FLAGS"}, {Rule: "ENUM-USE"}, {Rule: "DET-2", Filter: tag("enum"), Floor: 1}},
+		Rules:      []RuleUse{{Rule: "ENUM-TAB"}, {Rule: "ENUM-LEX"}, {Rule: "ENUM-FLAGS"}, {Rule: "ENUM-USE"}, {Rule: "DET-2", Filter: tag("enum"), Floor: 1}, {Rule: "ENUM-HAND", Filter: notTag("types"), Floor: 1}, {Rule: "MD-OMIT", Filter: tag("enum"), Floor: 10}},
 	})
 	addProperty(&Property{
 		ID:         "C19",
@@ -18,17 +18,17 @@ func init() {
 	addProperty(&Property{
 		ID:         "C01",
 		Title:      "Parse then print preserves the meaning of every accepted module",
-		Decided:    "over every construct of the translator and printers: each grammar alternative is dispatched or rejected with an error, never a panic or silent skip (EXH, SIB); scaffold and fill translators agree on the IR type per AST node (PAIR); every syntax accessor of every handled AST node is read and used (ACC) and lands in the like-named IR field (FLOW); every IR field the parser allocates is filled (FLD-W) and every IR field is read by its printer (FLD-P), in grammar order (ORD), under the right opcode keyword (OPC); errors of the translator's own functions are returned, never dropped or turned into panics (ERR), and never accompanied by a module (NILMOD); no success return of a translator precedes an unconditional store to a field of the object being filled (EARLY-RET); a name the printer omits as default is the default the translator substitutes (ELIDE).",
+		Decided:    "over every construct of the translator and printers: each grammar alternative is dispatched or rejected with an error, never a panic or silent skip (EXH, SIB); scaffold and fill translators agree on the IR type per AST node (PAIR); every syntax accessor of every handled AST node is read and used (ACC) and lands in the like-named IR field (FLOW); every IR field the parser allocates is filled (FLD-W) and every IR field is read by its printer (FLD-P), in grammar order (ORD), under the right opcode keyword (OPC); errors of the translator's own functions are returned, never dropped or turned into panics (ERR), and never accompanied by a module (NILMOD); no success return of a translator precedes an unconditional store to a field of the object being filled (EARLY-RET); a name the printer omits as default is the default the translator substitutes (ELIDE); a debug-info field is omitted only at the zero value the translator leaves for an absent field (MD-OMIT); the result type attached to a parsed getelementptr considers every index and keeps the address space (GEP-RES, GEP-VLEN); literal constants are built only by the literal readers (LIT-CTOR); quoted digit strings are names (ENC-CLASS).",
 		NotDecided: "that the printed text means the same to LLVM at the level of values (literal formatting is C09/C10/C11); crashes guarded by data conditions (e.g. `i1 -1`); the alias-typedef defect F2 (found by reading, no rule).",
-		Rules:      []RuleUse{{Rule: "EXH"}, {Rule: "SIB"}, {Rule: "PAIR"}, {Rule: "ACC"}, {Rule: "FLOW"}, {Rule: "FLD-W"}, {Rule: "FLD-P"}, {Rule: "ORD"}, {Rule: "OPC"}, {Rule: "ERR"}, {Rule: "NILMOD"}, {Rule: "EARLY-RET"}, {Rule: "ELIDE"}},
+		Rules:      []RuleUse{{Rule: "EXH"}, {Rule: "SIB"}, {Rule: "PAIR"}, {Rule: "ACC"}, {Rule: "FLOW"}, {Rule: "FLD-W"}, {Rule: "FLD-P"}, {Rule: "ORD"}, {Rule: "OPC"}, {Rule: "ERR"}, {Rule: "NILMOD"}, {Rule: "EARLY-RET"}, {Rule: "ELIDE"}, {Rule: "MD-OMIT"}, {Rule: "GEP-RES"}, {Rule: "GEP-VLEN"}, {Rule: "LIT-CTOR"}, {Rule: "ENC-CLASS"}},
 	})
 	addProperty(&Property{
 		ID:         "C03",
 		Title:      "IR built through the constructors prints to valid, faithful LLVM assembly",
-		Decided:    "every constructor parameter is stored, same-typed parameters in the like-named field (CTOR-1); lazily cached result types are computed in the constructor (CTOR-2); every builder method forwards its parameters in order to the like-named constructor, stores the result once, sets Parent and returns it (CTOR-3); every field is read by its printer (FLD-P) in grammar order (ORD) under the right opcode (OPC); the getelementptr constructors compute their result type through the shared walk with the vector length of every index taken from the index type (GEP-WALK, GEP-VLEN on ir and ir/constant); unnamed values are numbered in the order they are printed (NUM-ORDER).",
-		NotDecided: "acceptance of the text by LLVM, execution results, structural identity after re-parsing, and that a constructor's own type check never rejects a well-typed operand (the panicking checks in New* are not classified).",
+		Decided:    "every constructor parameter is stored, same-typed parameters in the like-named field (CTOR-1); lazily cached result types are computed in the constructor (CTOR-2); every builder method forwards its parameters in order to the like-named constructor, stores the result once, sets Parent and returns it (CTOR-3); every field is read by its printer (FLD-P) in grammar order (ORD) under the right opcode (OPC); the getelementptr constructors compute their result type through the shared walk with the vector length of every index taken from the index type (GEP-WALK, GEP-VLEN on ir and ir/constant); unnamed values are numbered in the order they are printed (NUM-ORDER); the shared gep walk examines every index and keeps the address space (GEP-RES); parameter-list printers write `...` whenever the type is variadic (ELLIPSIS); constructor type checks compare the operands' own types, not synthesised ones (CTOR-CHK).",
+		NotDecided: "acceptance of the text by LLVM, execution results, structural identity after re-parsing, and that a constructor's own type check never rejects a well-typed operand beyond the structural clause of CTOR-CHK.",
 		Rules: []RuleUse{{Rule: "CTOR-1"}, {Rule: "CTOR-2"}, {Rule: "CTOR-3"}, {Rule: "FLD-P"}, {Rule: "ORD"}, {Rule: "OPC"},
-			{Rule: "GEP-WALK", Filter: keyPrefix("ir.", "ir/constant."), Floor: 4}, {Rule: "GEP-VLEN", Filter: keyPrefix("ir.", "ir/constant."), Floor: 2}, {Rule: "NUM-ORDER"}},
+			{Rule: "GEP-WALK", Filter: keyPrefix("ir.", "ir/constant."), Floor: 4}, {Rule: "GEP-VLEN", Filter: keyPrefix("ir.", "ir/constant."), Floor: 2}, {Rule: "NUM-ORDER"}, {Rule: "GEP-RES"}, {Rule: "ELLIPSIS"}, {Rule: "CTOR-CHK"}},
 	})
 	addProperty(&Property{
 		ID:         "C15",
@@ -42,22 +42,22 @@ func init() {
 		Title:      "Type equality is a structural equivalence matching LLVM type identity",
 		Decided:    "each kind's Equal reads every identity field on both sides (EQ-1), guards on the argument's kind and returns false otherwise (EQ-2, necessary for symmetry), and the struct kind cuts recursion at type names before descending into fields (EQ-3, necessary for termination); every field of every type kind is printed (FLD-P on ir/types) and read back (ACC/FLOW on the type translators), which equality through print/parse relies on.",
 		NotDecided: "transitivity as such; that the pointer kind's comparison of printed forms coincides with structure for all element types; preservation by print/parse beyond field coverage.",
-		Rules:      []RuleUse{{Rule: "EQ-1"}, {Rule: "EQ-2"}, {Rule: "EQ-3"}, {Rule: "FLD-P", Filter: tag("types"), Floor: 15}, {Rule: "FLOW", Filter: tag("types"), Floor: 10}, {Rule: "EARLY-RET", Filter: tag("types"), Floor: 5}},
+		Rules:      []RuleUse{{Rule: "EQ-1"}, {Rule: "EQ-2"}, {Rule: "EQ-3"}, {Rule: "FLD-P", Filter: tag("types"), Floor: 15}, {Rule: "FLOW", Filter: tag("types"), Floor: 10}, {Rule: "EARLY-RET", Filter: tag("types"), Floor: 5}, {Rule: "ENUM-HAND", Filter: tag("types"), Floor: 1}},
 	})
 	addProperty(&Property{
 		ID:         "C05",
 		Title:      "Undefined or doubly defined names are reported as errors",
-		Decided:    "no unchecked lookup in an index of definitions (LK-1); every lookup of a decoded identifier returns an error on a miss and the found object on a hit (LK-2); every insertion into an index is guarded by a duplicate test that always errors (DUP); errors of translator functions are propagated, never panicked or dropped (ERR); an error never comes with a module (NILMOD).",
+		Decided:    "no unchecked lookup in an index of definitions (LK-1); every lookup of a decoded identifier returns an error on a miss and the found object on a hit (LK-2); every insertion into an index is guarded by a duplicate test that always errors (DUP); errors of translator functions are propagated, never panicked or dropped (ERR); an error never comes with a module (NILMOD); the table of a function's locals is created fresh per function and never replaced or shared, so a name another function defined cannot satisfy a lookup (SCOPE); the exact exception a duplicate test lets through is part of the construct, so a recorded exception does not hide another one (DUP).",
 		NotDecided: "reference sites that never reach a lookup at all (e.g. names only used by constructs the IR does not model); blockaddress placeholders (covered under C04 by TODO).",
-		Rules:      []RuleUse{{Rule: "LK-1"}, {Rule: "LK-2"}, {Rule: "DUP"}, {Rule: "ERR"}, {Rule: "NILMOD"}, {Rule: "TODO"}, {Rule: "PHASE"}},
+		Rules:      []RuleUse{{Rule: "LK-1"}, {Rule: "LK-2"}, {Rule: "DUP"}, {Rule: "ERR"}, {Rule: "NILMOD"}, {Rule: "TODO"}, {Rule: "PHASE"}, {Rule: "SCOPE"}},
 	})
 	addProperty(&Property{
 		ID:         "C12",
 		Title:      "Translation is deterministic",
-		Decided:    "every range over a map in the translator and printer is collect-then-sort or has a commutative body (DET-1, all instances, closed over the call graph); nothing reachable from Parse* or printing writes package-level state in llir/llvm, llir/ll or mewmew/float (DET-2); every entry point funnels into ParseString → translate (DET-3); every emitted list is in sorted or recorded textual order (ORD-SORT).",
+		Decided:    "every range over a map in the translator and printer is collect-then-sort or has a commutative body (DET-1, all instances, closed over the call graph); nothing reachable from Parse* or printing writes package-level state in llir/llvm, llir/ll or mewmew/float (DET-2); every entry point funnels into ParseString → translate (DET-3); every emitted list is in sorted or recorded textual order (ORD-SORT); no IR object is allocated with a lazily computed type cache, whose first computation during translation would freeze a value that depends on which entity the map iteration reaches first (RACE-3, CACHE-ORDER); no module data aliases caller-owned memory (NO-UNSAFE: ParseBytes copies).",
 		NotDecided: "totality of the natural-sort comparison on which sorted results rely (see C20); determinism of the generated LALR parser beyond writing no package-level state; per-entity objects shared between two map iterations (type-based commutativity argument).",
 		Technique:  "static analysis: SSA write-effect summaries closed over the VTA call graph (freshness, singleton-type classification) + go/ast idiom rules for map ranges (DET-1, DET-2, DET-3, ORD-SORT)",
-		Rules:      []RuleUse{{Rule: "DET-1"}, {Rule: "DET-2"}, {Rule: "DET-3"}, {Rule: "ORD-SORT"}},
+		Rules:      []RuleUse{{Rule: "DET-1"}, {Rule: "DET-2"}, {Rule: "DET-3"}, {Rule: "ORD-SORT"}, {Rule: "RACE-3"}, {Rule: "CACHE-ORDER"}, {Rule: "NO-UNSAFE"}},
 	})
 	addProperty(&Property{
 		ID:         "C13",
@@ -90,7 +90,7 @@ func init() {
 		Rules: []RuleUse{{Rule: "MD-IDENT"}, {Rule: "MD-INLINE"}, {Rule: "MD-SCAF"}, {Rule: "MD-KEY"}, {Rule: "MD-MERGE"}, {Rule: "MD-ASSIGN"},
 			{Rule: "PAIR", Filter: tag("md"), Floor: 25}, {Rule: "LK-2", Filter: tag("md"), Floor: 1}, {Rule: "DUP", Filter: tag("md"), Floor: 1},
 			{Rule: "EXH", Filter: tag("md"), Floor: 200}, {Rule: "ACC", Filter: tag("md"), Floor: 120}, {Rule: "FLOW", Filter: tag("md"), Floor: 150},
-			{Rule: "FLD-W", Filter: tag("md"), Floor: 200}, {Rule: "FLD-P", Filter: tag("md"), Floor: 200}, {Rule: "RACE-2", Filter: keyHas("MetadataIDs"), Floor: 1}},
+			{Rule: "FLD-W", Filter: tag("md"), Floor: 200}, {Rule: "FLD-P", Filter: tag("md"), Floor: 200}, {Rule: "RACE-2", Filter: keyHas("MetadataIDs"), Floor: 1}, {Rule: "EARLY-RET", Filter: tag("md"), Floor: 2}},
 	})
 	addProperty(&Property{
 		ID:         "C04",
@@ -98,7 +98,7 @@ func init() {
 		Decided:    "every definition object the parser allocates flows into a registering index or container, and nothing but the blockaddress placeholder is allocated outside that discipline (ALLOC, SSA value flow); the placeholder is queued, the queue is drained before the module is returned and the fixer installs a block of the function itself or fails (TODO); uses obtain the looked-up object itself, or an error (LK-2, LK-1); locals resolve only in their own function's table (SCOPE); every index is completely filled before any step consults it (PHASE); parent links are set at creation by the parser (PARENT) and by the builder API (CTOR-3).",
 		NotDecided: "identity along paths the flow rules do not model (objects copied by value); the alias-typedef defect F2 (a second type object named like its target), found by reading.",
 		Technique:  "static analysis: SSA value-flow of allocation sites to registering sinks over the VTA call graph, call-graph phase ordering, go/ast idiom rules (ALLOC, TODO, SCOPE, PHASE, PARENT, LK-1, LK-2)",
-		Rules: []RuleUse{{Rule: "ALLOC"}, {Rule: "IDX-ONCE"}, {Rule: "TODO"}, {Rule: "SCOPE"}, {Rule: "PHASE"}, {Rule: "PARENT"}, {Rule: "LK-1"}, {Rule: "LK-2"},
+		Rules: []RuleUse{{Rule: "ALLOC"}, {Rule: "IDX-ONCE"}, {Rule: "TODO"}, {Rule: "SCOPE"}, {Rule: "PHASE"}, {Rule: "PARENT"}, {Rule: "LK-1"}, {Rule: "LK-2"}, {Rule: "ENC-CLASS"},
 			{Rule: "CTOR-3"}},
 	})
 	addProperty(&Property{
@@ -106,42 +106,42 @@ func init() {
 		Title:      "Result types agree with LLVM's typing rules, in parser and IR alike",
 		Decided:    "for every lazily typed instruction, terminator and constant-expression kind, the parser's precomputed result type and the library's Type() normalise to the same symbolic term over operand types, syntactic components, assertions, selections and type constructors, and constant expressions agree with the instruction of the same opcode (TYP-AGREE; call/invoke/callbr/phi/alloca are compared by the stated LLVM axiom and exempt); vector result types keep the scalability of the vector type their length comes from, on every site in parser, instructions, constant expressions and the gep walk (TYP-1); the parser never caches a result type before the fields it is computed from are set (CACHE-ORDER); every lazily typed value is typed at creation by constructors and parser, which numbering and printing rely on (RACE-3, CTOR-2); getelementptr types come from one shared walk (GEP-WALK).",
 		NotDecided: "that the common term equals LLVM's typing rule when both sides are wrong in the same way (only TYP-1 and the listed axioms encode LLVM facts); kinds whose type is not lazily computed (casts, load, va_arg, landingpad: the type is a syntactic field copied verbatim, covered by FLOW).",
-		Rules:      []RuleUse{{Rule: "TYP-AGREE"}, {Rule: "TYP-1"}, {Rule: "CACHE-ORDER"}, {Rule: "RACE-3"}, {Rule: "CTOR-2"}, {Rule: "GEP-WALK"}},
+		Rules:      []RuleUse{{Rule: "TYP-AGREE"}, {Rule: "TYP-1"}, {Rule: "CACHE-ORDER"}, {Rule: "RACE-3"}, {Rule: "CTOR-2"}, {Rule: "GEP-WALK"}, {Rule: "GEP-VLEN"}, {Rule: "GEP-SIB"}, {Rule: "GEP-RES"}},
 	})
 	addProperty(&Property{
 		ID:         "C07",
 		Title:      "getelementptr result types are computed correctly and consistently",
 		Decided:    "gep.ResultType is the only producer of gep result types and is fed only by the index-list wrappers (GEP-WALK); every wrapper derives each index's vector length and scalability from the index operand's type for every index form (GEP-VLEN); the three index classifiers classify corresponding constant kinds alike (GEP-SIB) and cover every constant kind the grammar allows or fall back without panicking (EXH on the classifiers); the walk carries scalability with length (TYP-1).",
 		NotDecided: "the walk itself against LLVM (stepping through arrays, vectors and struct fields is one shared function with no sibling to cross-check); agreement of the element classification inside constant index vectors for forms that cannot change the result type.",
-		Rules:      []RuleUse{{Rule: "GEP-WALK"}, {Rule: "GEP-VLEN"}, {Rule: "GEP-SIB"}, {Rule: "TYP-1", Filter: tag("gep"), Floor: 2}, {Rule: "EXH", Filter: tag("gep"), Floor: 50}, {Rule: "ERR", Filter: tag("gep"), Floor: 2}},
+		Rules:      []RuleUse{{Rule: "GEP-WALK"}, {Rule: "GEP-VLEN"}, {Rule: "GEP-SIB"}, {Rule: "GEP-RES"}, {Rule: "TYP-1", Filter: tag("gep"), Floor: 2}, {Rule: "EXH", Filter: tag("gep"), Floor: 50}, {Rule: "ERR", Filter: tag("gep"), Floor: 2}},
 	})
 	addProperty(&Property{
 		ID:         "C08",
 		Title:      "Unnamed values are numbered exactly as LLVM numbers them",
 		Decided:    "the printer's numbering traversal and the parser's indexing traversal have the same nest, filters and asserted interface (NUM-SHAPE); a type is numbered exactly when it prints a `<ident> = ` prefix, conditional on non-void exactly for call-like types and with the numbering's own skip predicate (NUM-PREFIX); numbering stores only the position counter, starting at 0 and advancing once per unnamed entity, so renumbering an already numbered function changes nothing (NUM-REDERIVE, RACE-2 guard); one numbering authority per ID space (NUM-AUTH); call-like result types are known before numbering (RACE-3).",
 		NotDecided: "the arithmetic of the counters as such; agreement with LLVM's own numbering beyond the traversal order LLVM documents.",
-		Rules:      []RuleUse{{Rule: "NUM-SHAPE"}, {Rule: "NUM-PREFIX"}, {Rule: "NUM-REDERIVE"}, {Rule: "NUM-AUTH"}, {Rule: "NUM-ORDER"}, {Rule: "RACE-2"}, {Rule: "RACE-3"}, {Rule: "TYP-AGREE", Filter: tag("call"), Floor: 3}},
+		Rules:      []RuleUse{{Rule: "NUM-SHAPE"}, {Rule: "NUM-PREFIX"}, {Rule: "NUM-REDERIVE"}, {Rule: "NUM-AUTH"}, {Rule: "NUM-ORDER"}, {Rule: "RACE-2"}, {Rule: "RACE-3"}, {Rule: "TYP-AGREE", Filter: tag("call"), Floor: 3}, {Rule: "ENC-CLASS"}},
 	})
 	addProperty(&Property{
 		ID:         "C11",
 		Title:      "Names and strings are escaped losslessly and unambiguously",
 		Decided:    "one numeric-name predicate at every site that decides ID vs name, in encoders, decoders and identifier constructors (ENC-NUM); no raw string field reaches a printer's output without an LLVM escaper (ENC-STR); no undecoded token text reaches the IR (ENC-TEXT); per token class the sigil written equals the sigil stripped, and every encoder is applied only to fields of its own class (ENC-PAIR); decoders return the denoted bytes without formatting quote characters into names (ENC-RAW); evaluated over all 256 byte values, every byte class that is copied verbatim between quotes excludes the quote and the backslash, and every hand-made quoting is applied to escaper output or under a guard whose accepted bytes are a subset of the escaper's verbatim set (ENC-SET); in Unescape only bytes of the source are ever examined as escape syntax, never a decoded byte (ENC-UNESC).",
 		NotDecided: "losslessness and injectivity of the escaping functions over all byte strings (Escape/Unescape are loops over runtime bytes; beyond the byte classes and the source-byte discipline no structural rule establishes that they are inverse); LLVM's own reading of the tokens.",
-		Rules:      []RuleUse{{Rule: "ENC-NUM"}, {Rule: "ENC-STR"}, {Rule: "ENC-TEXT"}, {Rule: "ENC-PAIR"}, {Rule: "ENC-RAW"}, {Rule: "ENC-SET"}, {Rule: "ENC-UNESC"}},
+		Rules:      []RuleUse{{Rule: "ENC-NUM"}, {Rule: "ENC-STR"}, {Rule: "ENC-TEXT"}, {Rule: "ENC-PAIR"}, {Rule: "ENC-RAW"}, {Rule: "ENC-SET"}, {Rule: "ENC-UNESC"}, {Rule: "ENC-CLASS"}},
 	})
 	addProperty(&Property{
 		ID:         "C09",
 		Title:      "Integer literals keep their exact value through print and parse",
 		Decided:    "ONLY reader/writer table agreement and totality: every spelling class the integer printer can emit (true/false, u0x + base-16 digits, decimal) is accepted by the reader under the same literal and base (LIT-INT-TAB); no value switch of the integer printer has a panicking default over runtime data (VSW); no spelling is produced from a 64-bit narrowing of the arbitrary-precision value (LIT-INT-TAB); the translator hands the unmodified token text to constant.NewIntFromString, and any other decoding of it is a plain base-10 strconv parse (LIT-READER); literal reading and printing keep no process-level state (DET-2 restricted to ir/constant and mewmew/float).",
 		NotDecided: "value preservation for any width or value: the entropy heuristic that chooses hexadecimal, two's-complement decoding of s0x by type width, and big-integer formatting are runtime computations that no structural rule bounds. The behavioural core of the property is NOT decided.",
-		Rules:      []RuleUse{{Rule: "LIT-INT-TAB"}, {Rule: "VSW"}, {Rule: "LIT-READER"}, {Rule: "DET-2", Filter: tag("lit"), Floor: 1}},
+		Rules:      []RuleUse{{Rule: "LIT-INT-TAB"}, {Rule: "VSW"}, {Rule: "LIT-READER"}, {Rule: "DET-2", Filter: tag("lit"), Floor: 1}, {Rule: "LIT-CTOR"}},
 	})
 	addProperty(&Property{
 		ID:         "C10",
 		Title:      "Floating-point literals keep their exact bit pattern",
 		Decided:    "ONLY reader/writer table agreement: per kind, hex prefix letter and mewmew/float codec are the same in printer and reader, the printer's kind switch covers all declared kinds, and the kinds that can fall through to a decimal spelling are exactly those the reader's decimal branch handles (LIT-FP-TAB); kind switches with panicking defaults are total or exempt with the LLVM rule that makes the missing kinds unreachable (VSW); the 16-digit form of half/float/double is decoded as a double bit pattern with math.Float64frombits, the reader's rounding precision per kind is the same at every site and equals the IEEE significand width, and each kind's decimal spelling is guarded by the exactness test of its own width (LIT-FP-TAB); the translator hands the unmodified token text to constant.NewFloatFromString (LIT-READER); literal reading and printing keep no process-level state, e.g. an exactness cache keyed without the kind (DET-2 restricted to ir/constant and mewmew/float).",
 		NotDecided: "any bit pattern: exactness tests, rounding precisions, NaN payloads, signed zeros and subnormals are numerical questions outside this technique. The behavioural core of the property is NOT decided.",
-		Rules:      []RuleUse{{Rule: "LIT-FP-TAB"}, {Rule: "VSW"}, {Rule: "LIT-READER"}, {Rule: "DET-2", Filter: tag("lit"), Floor: 1}},
+		Rules:      []RuleUse{{Rule: "LIT-FP-TAB"}, {Rule: "VSW"}, {Rule: "LIT-READER"}, {Rule: "DET-2", Filter: tag("lit"), Floor: 1}, {Rule: "LIT-CTOR"}},
 	})
 	addProperty(&Property{
 		ID:         "C02",
@@ -149,6 +149,6 @@ func init() {
 		Decided:    "only conditions necessary for idempotence itself (dropping a field is idempotent, so coverage rules are deliberately not attached): output cannot depend on map iteration order (DET-1); every keyword, literal spelling class and identifier spelling the printer can choose is read back into the same class/value table entry (ENUM-TAB, ENUM-LEX, LIT-INT-TAB, LIT-FP-TAB, ENC-NUM, ENC-PAIR, MD-KEY); the numbering the printer emits is the numbering the parser assigns on re-read (NUM-SHAPE, NUM-PREFIX, NUM-AUTH); every emitted list is already in the order a re-parse would put it in (ORD-SORT); a name the printer omits as default is exactly the default the translator substitutes (ELIDE); a merge that removes duplicates removes them across all merged definitions, so that merging its own output changes nothing (DEDUP-SCOPE); literal token text is decoded by the one reader the printer's spellings are matched against (LIT-READER).",
 		NotDecided: "byte equality of the two texts; structural identity of the two parsed modules; acceptance of the printed text by the generated LALR parser beyond keyword/terminal membership.",
 		Rules: []RuleUse{{Rule: "DET-1"}, {Rule: "ENUM-TAB"}, {Rule: "ENUM-LEX"}, {Rule: "LIT-INT-TAB"}, {Rule: "LIT-FP-TAB"}, {Rule: "ENC-NUM"}, {Rule: "ENC-PAIR"}, {Rule: "MD-KEY"},
-			{Rule: "NUM-SHAPE"}, {Rule: "NUM-PREFIX"}, {Rule: "NUM-AUTH"}, {Rule: "ORD-SORT"}, {Rule: "ELIDE"}, {Rule: "DEDUP-SCOPE"}, {Rule: "LIT-READER"}},
+			{Rule: "NUM-SHAPE"}, {Rule: "NUM-PREFIX"}, {Rule: "NUM-AUTH"}, {Rule: "ORD-SORT"}, {Rule: "ELIDE"}, {Rule: "DEDUP-SCOPE"}, {Rule: "LIT-READER"}, {Rule: "NUM-ORDER"}},
 	})
 }
